@@ -88,6 +88,7 @@ func stripConv(v ssa.Value) ssa.Value {
 }
 
 func runC11(p *an.Prog, r *an.Run, tier string) {
+	checkSurfaceClosed(p, r)
 	exp, ok1 := p.PkgConstInt("pool/store", "ExpireInterval")
 	ka, ok2 := p.PkgConstInt("pool/store", "KeepaliveInterval")
 	r.Check(ok1 && ok2 && exp == 2*ka && ka > 0, "evict-predicate", "store.ExpireInterval", token.NoPos, "ExpireInterval = 2*KeepaliveInterval", "ExpireInterval (%d) is not two keep-alive intervals (%d)", exp, ka)
@@ -624,6 +625,16 @@ func runC11(p *an.Prog, r *an.Run, tier string) {
 		for _, e := range an.ErrEdges(updPeers[0]).Succ {
 			if hit := pathFromBlock(upd, e.To, isNP, isUse); hit != nil {
 				bad = append(bad, "the keep-alive can be billed or answered at "+p.Pos(hit.Pos())+" without NodePeers having been read after the update (a remembered active set)")
+			}
+		}
+		// a keep-alive changes the store through UpdateNodePeers alone (and the balance manager): nothing in Update
+		// re-writes the node record ("restore it after a dry run" puts LastSeen back but leaves the tracked-peer set
+		// with what the dry run did to it: a peer it declared invalid is forgotten and never declared for real)
+		for _, f := range regionFuncs(p, upd) {
+			for _, c := range an.Calls(f, false) {
+				if isStoreMethodNamed(an.CallObj(c), "SetNode") {
+					bad = append(bad, an.FuncName(f)+" re-writes the node record with SetNode at "+p.Pos(c.Pos())+" while serving a keep-alive")
+				}
 			}
 		}
 		// the response returned is the one filled in
